@@ -460,6 +460,8 @@ class Tr:
                 return "h.root", "ptr"
             if not self.in_item and x == "_end":
                 return "h.endItem", "ptr"             # the Iterator whose item is &endItem
+            if not self.in_item and x == "_begin" and "_begin" not in env:
+                return "h.beginItem", "ptr"           # the Iterator whose item is _begin.item
             if not self.in_item and x == "freeItem":
                 return "h.freeItem", "ptr"
             if not self.in_item and x == "_size":
@@ -1622,6 +1624,60 @@ def translate_header(path):
     out["insertPlain"] = compose("insertPlain", "insertPlainHead", "v_key v_value", kv, "insertPrivate")
     out["insertAt"] = compose("insertAt", "insertHint", f"{hint_pos} v_key v_value", f" ({hint_pos} : Nat)" + kv, "insertPrivate")
     order2 += ["insertPrivate", "insertPlain", "insertAt"]
+    # ---- the one-line public bodies over find / remove(it): recognised by the shape of their syntax tree
+    trx = Tr2("oneLiner", sigs, fields, False, info)
+
+    def body_of(rx, what):
+        mm = re.search(rx, src)
+        if not mm:
+            raise Refuse(f"{what} not found")
+        pp = P(tokenize(src[mm.end():balanced(src, mm.end() - 1) - 1]), what)
+        its = pp.block_items()
+        if pp.peek() is not None:
+            raise Refuse(f"{what}: trailing tokens")
+        return mm, [x for x in its if x[0] != "skip"]
+
+    def is_find_call(e, key):
+        e = trx.strip(e)
+        return e[0] == "call" and e[1] == "find" and len(e[2]) == 1 and trx.strip(e[2][0]) == ("id", key)
+
+    # bool contains(const T& key) const {return find(key) != _end;}
+    mm, its = body_of(r"bool\s+contains\s*\(\s*const\s+T\s*&\s*(\w+)\s*\)\s*(?:const\s*)?\{", "contains")
+    e = trx.strip(its[0][1]) if len(its) == 1 and its[0][0] == "return" and its[0][1] is not None else None
+    if not (e and e[0] == "bin" and e[1] == "!=" and is_find_call(e[2], mm.group(1)) and trx.strip(e[3]) == ("id", "_end")):
+        raise Refuse("contains: body is not `return find(key) != _end;`")
+    out["contains"] = ("def contains (fuel : Nat) (h : Heap) (c : Nat) (v_key : Int) : Option (Bool × Nat) :=\n"
+                       "  match find fuel h c v_key with\n  | none => none\n  | some (v_it, c) => some (decide (v_it ≠ h.endItem), c)\n")
+    # Iterator removeFront() {return remove(_begin);}   Iterator removeBack() {return remove(_end.item->prev);}
+    for nm in ("removeFront", "removeBack"):
+        mm, its = body_of(r"Iterator\s+" + nm + r"\s*\(\s*\)\s*\{", nm)
+        e = trx.strip(its[0][1]) if len(its) == 1 and its[0][0] == "return" and its[0][1] is not None else None
+        if not (e and e[0] == "call" and e[1] == "remove" and len(e[2]) == 1):
+            raise Refuse(f"{nm}: body is not `return remove(<iterator>);`")
+        trx.fn = nm
+        t, ty = trx.rv(e[2][0], {}, "ptr")
+        if ty != "ptr":
+            raise Refuse(f"{nm}: remove called with {ty}")
+        out[nm] = f"def {nm} (fuel : Nat) (h : Heap) : Option (Heap × Nat) :=\n  remove fuel h {t}\n"
+    # void remove(const T& key) { Iterator it = find(key); if(it != _end) remove(it); }
+    mm, its = body_of(r"void\s+remove\s*\(\s*const\s+T\s*&\s*(\w+)\s*\)\s*\{", "remove(key)")
+    ok = (len(its) == 2 and its[0][0] == "decl" and its[0][1] == "Iterator" and its[0][3] is not None
+          and is_find_call(its[0][3], mm.group(1)) and its[1][0] == "if")
+    if ok:
+        itn = its[0][2]
+        cnd, thn, els = trx.strip(its[1][1]), its[1][2], its[1][3]
+        while thn[0] == "block" and len(thn[1]) == 1:
+            thn = thn[1][0]
+        call = trx.strip(thn[1]) if thn[0] == "expr" else None
+        ok = (cnd == ("bin", "!=", ("id", itn), ("id", "_end")) and els == ("block", []) and call is not None
+              and call[0] == "call" and call[1] == "remove" and len(call[2]) == 1 and trx.strip(call[2][0]) == ("id", itn))
+    if not ok:
+        raise Refuse("remove(key): body is not `Iterator it = find(key); if(it != _end) remove(it);`")
+    out["removeKey"] = ("def removeKey (fuel : Nat) (h : Heap) (c : Nat) (v_key : Int) : Option (Heap × Nat) :=\n"
+                        "  match find fuel h c v_key with\n  | none => none\n  | some (v_it, c) =>\n"
+                        "    if (v_it ≠ h.endItem) then\n      match remove fuel h v_it with\n      | none => none\n"
+                        "      | some (h, _) => some (h, c)\n    else\n      some (h, c)\n")
+    order2 += ["contains", "removeFront", "removeBack", "removeKey"]
     return out, norm, order2
 
 
